@@ -23,7 +23,7 @@
    cache is compared with the from-scratch hashes of its own node vector on the generated histories.
    Statements only. *)
 From Coq Require Import String NArith List.
-From MlsV Require Import Res TreeMathGen TreeMathProofs Tree TreeProofs TreeWF Decap DecapProofs TreeWF5 NodeVecGen NodeVecGenProofs Kem Priv ParentHash HashCache HashCacheGen HashCacheProofs HashCacheGenProofs HashCacheTree CommitStep TreeState ParentHashCode ParentHashGen ParentHashCodeProofs ParentHashGenProofs.
+From MlsV Require Import Res TreeMathGen TreeMathProofs Tree TreeProofs TreeWF Decap DecapProofs TreeWF5 NodeVecGen NodeVecGenProofs Kem Priv ParentHash HashCache HashCacheGen HashCacheProofs HashCacheGenProofs HashCacheTree CommitStep TreeState ParentHashCode ParentHashGen ParentHashCodeProofs ParentHashGenProofs ParentHashCommit.
 Import ListNotations.
 Local Open Scope N_scope.
 
@@ -207,6 +207,21 @@ Theorem C08_the_parent_hash_walk_of_the_code_computes_the_valid_parent_hashes :
     forall x, set_ph d' (2 * sndr) h x = decorate (fun k p ct => PH k p (c2h enc ct)) t2 d sndr flt fk leafkey x.
 Proof. exact parent_hash_for_leaf_is_decorate. Qed.
 Print Assumptions C08_the_parent_hash_walk_of_the_code_computes_the_valid_parent_hashes.
+
+(* the first hypothesis of the theorem above holds for the tree an update path has just been applied to: the
+   filter flags computed before the path nodes were written are the emptiness of the copath resolutions after *)
+Theorem C08_filter_flags_are_the_copath_resolutions_after_the_update_path : forall t1 sndr id t2 flt,
+  small t1 -> apply_update_path t1 sndr id = TOk t2 ->
+  filtered (set t1 (2 * sndr) (Some (Leaf id))) sndr = Ok flt ->
+  forall i b, nth_error flt i = Some b ->
+  resolution_empty t2 (node (N.of_nat i) (sib (sndr / 2 ^ N.of_nat i))) = Ok b.
+Proof. exact flags_after_update_path. Qed.
+Print Assumptions C08_filter_flags_are_the_copath_resolutions_after_the_update_path.
+
+Theorem C08_parent_hash_validity_depends_on_the_decoration_pointwise : forall PHF t d d',
+  (forall x, d' x = d x) -> PHValid PHF t d -> PHValid PHF t d'.
+Proof. exact PHValid_pointwise. Qed.
+Print Assumptions C08_parent_hash_validity_depends_on_the_decoration_pointwise.
 
 (* ---- the whole public tree state of a member: node vector, keys and parent hashes, hash cache ----
    In EVERY state reachable from a new group by commits with and without a path, in the order of the code
